@@ -6,7 +6,7 @@ import time, json, itertools, struct, re, string
 from .. import common as C, explore as X
 
 PROP = 'C19'
-T_SIGMA = ['%', '(', ')', 'd', 's', '5', '.', '*', '-', 'a', 'é']
+T_SIGMA = ['%', '(', ')', 'd', 's', '5', '.', '*', '-', 'a', 'é', 'l', 'h']
 
 
 class V(int):
@@ -76,7 +76,7 @@ KEYS = ['', '(k)', '(a(b)c)', '(k', '()']
 FLAGCH = ['#', '0', '-', ' ', '+']
 WIDTHS = ['', '1', '8', '*']
 PRECS = ['', '.', '.0', '.3', '.*']
-LENMODS = {'quick': ['', 'l'], 'thorough': ['', 'h', 'l', 'L', 'll']}
+LENMODS = {'quick': ['', 'l', 'll'], 'thorough': ['', 'h', 'l', 'L', 'll', 'hl', 'lL', 'lll']}
 TYPES = list(string.ascii_letters) + ['%']
 INTS = [0, 1, -1, 7, 255, -255, 65536, 1234567, 10 ** 20, -10 ** 20]
 FLOATS = [0.0, -0.0, 1.0, -1.5, 0.5, 1234.5678, 1e-7, 1e16, 1e22, 123456789.0, float('inf'), float('-inf'), float('nan'), 2.675, 99999.5]
